@@ -42,7 +42,8 @@ CHECKS["C14"] = dict(
     text="Decides exact-substitution structurally for every AST and alias map: the handlers that can return a table entry "
          "are exactly Identifier/Attribute; hit returns the entry without descending, miss rebuilds Attribute(visit(owner), attr); "
          "no naming position (Call.func, NamedParam.name, Lambda.identifier) reaches a substituting handler and lambda-bound "
-         "variables are shielded; everything else is the generic rebuild (C16); the table is parse(key)->parse(value) built "
+         "variables are shielded; everything else is the generic rebuild, whose completeness (every contained node visited once, every "
+         "field rebuilt from the visited child) is checked here as well as in C16; the table is parse(key)->parse(value) built "
          "once with supplied-or-fresh lexer/parser. The bijection/inverse clause is implied only as far as exact substitution goes.",
     note="Relies on C16 (generic transformer) and on dataclass equality/hash for table lookup. Known finding F23.",
     ref="5 C14")
@@ -88,24 +89,28 @@ _c("C01", "template extraction by abstract interpretation of the SQLite visitor 
    "not SQLite's evaluation: grouping preserved under SQLite precedence for every admissible (template, hole, child template) triple; "
    "well-formed templates, no placeholder, operands once and in order; operators spelled by SQLite tokens of the same meaning; eq/ne null "
    "rendered with IS [NOT] on either side; LIKE patterns escaped with an ESCAPE clause; function handlers match the meaning table "
-   "(argument flow, index shifts, strftime codes, wildcard sides). Induction over tree depth lifts the triples to all nestings.",
+   "(argument flow, index shifts, strftime codes, wildcard sides); literal values reach the visitor as written (token-action rule); no "
+   "class- or module-level cache whose key does not determine the value. Induction over tree depth lifts the triples to all nestings.",
    "Not decided: three-valued logic, collation, numeric/date function results in SQLite. Oracles: SQLite precedence table and function "
    "meanings (data in sa/props/c01.py, sa/sqltok.py). Known findings F07, F08.")
 _c("C02", "constructor-term extraction by abstract interpretation of the Django visitor + meaning-table comparison (static)",
    "Decides the structural clauses: operator -> Django construct mapping with operand order; custom NotEqual lookup; COMPARISON_FLIP "
    "involution; eq/ne null polarity and refusal for other comparators; every djangofunc_* against the meaning table; promotion to Q "
-   "exactly at depth 0; shorthand annotates before filtering on the incoming queryset; substring family type-checks both operands.",
+   "exactly at depth 0; shorthand annotates before filtering on the incoming queryset; substring family type-checks both operands; literal "
+   "values as written (token-action rule) and the shorthand chain parse(text) -> visit -> one filter without shared state.",
    "Not decided: Django's SQL compilation and execution for all table contents.")
 _c("C03", "constructor-term extraction by abstract interpretation of both SQLAlchemy visitors + sibling cross-check (static)",
    "Decides the structural clauses: operator mapping and operand order; case-normalised reads of case-preserving literal text; escape "
    "discipline and type checks of contains/startswith/endswith; function handlers against the meaning table; ORM and Core resolve to the "
    "same handler for everything but field resolution, and both visit_Compare build op(left, right); null on either side of eq/ne goes "
-   "through the IS form.",
+   "through the IS form; literal values as written (token-action rule); both shorthands are parse(text) -> visit -> exactly one filter, "
+   "with no container shared between calls whose key does not determine the stored value.",
    "Not decided: what the compiled statements return; run-time equality of the three entry styles. Known finding F18.")
 _c("C04", "logical normalisation of the terms built by visit_CollectionLambda + installed-library signature reading + Core F shape facts (static)",
    "Decides the structural clauses: paths are left-nested and lambda owners are full paths in the parser's image; any(p)/any()/all(p) are "
    "built as exists/exists/not-exists-not on both ORMs (keyword arguments count only if the installed constructor declares them); the "
-   "lambda body is made relative and translated by a sub-visitor on the related model; to-one joins are outer joins; Django path spelling.",
+   "lambda body is made relative and translated by a sub-visitor on the related model; to-one joins are outer joins; Django path spelling; "
+   "no state shared between visitor instances (cache keys must determine the cached value).",
    "Not decided: per-parent correlation, many-to-many semantics, run-time agreement of both ORMs.")
 _c("C06", "regular-language inclusion / shadowing / maximal-munch on DFAs of the ordered token rules over an exact alphabet partition (static)",
    "Decides the recognition clause for all spellings: for each literal kind and identifiers, the ABNF language is included in its rule, no "
@@ -133,7 +138,8 @@ _c("C12", "exhaustiveness over dispatch-reachable kinds + outcome analysis of ev
    "Decides: every (visitor, kind) reachable through self.visit from a filter's root has a handler or a refusing generic_visit; handlers name "
    "real kinds and reachable functions; function dispatch uses the full dotted name; arities fit signatures; every reachable raise is a "
    "library exception (or the documented NotImplementedError of Core); attribute reads are defined on every kind that reaches them for "
-   "well-typed arguments; SQLAlchemy field lookups are guarded so unknown names become InvalidFieldException.",
+   "well-typed arguments (OData 4.01 collection overloads included); SQLAlchemy field lookups are guarded so unknown names become "
+   "InvalidFieldException; no AST node or node list sits in a result as itself; no shared cache with an under-determined key.",
    "Not decided: exceptions raised inside Django/SQLAlchemy at compile time. Known findings F27, F28.")
 _c("C13", "printer templates vs the parser's LALR decision relation, lexer-action inverses and token languages (static)",
    "Decides the property for the parser's image: parentheses wherever the automaton would regroup, for every (parent operator, slot, child "
